@@ -45,7 +45,7 @@ HitIf(h, cond, name) == IF cond THEN Hit(h, name) ELSE h
 MetricNames == {"accuracy", "precision", "recall", "fbeta", "auc", "mse", "mae", "r2"}
 HitNames == MetricNames \cup
             {"LengthMismatch", "Unconstrained", "AucTies", "AucConstant", "SinglePosOrNeg", "Scaled", "Offset", "AucScaled", "AucNeighbours", "AucCloserThanEps", "R2ScaledFar", "AucKiller", "ArgSortKiller",
-             "LengthLadder", "BlockMultiple", "HcvLadder", "NdStrided", "HcvNdStrided",
+             "LengthLadder", "BlockMultiple", "HcvLadder", "NdStrided", "HcvNdStrided", "Nalgebra", "AucExtreme", "LengthMismatchBackEnd", "LengthMismatchOneVsN",
              "Expect", "Drift", "HCV", "HcvSingleClass", "HcvPure", "HcvMixed", "HcvDyadic",
              "HcvDyadicMixed", "HcvIndependent", "HcvIdentical", "ArgSort", "ArgSortLong"}
 
@@ -103,7 +103,13 @@ StepMetric(e) ==
         h5h == HitIf(h5g, con /\ Len(e.a) >= 255, "LengthLadder")
         h5i == HitIf(h5h, con /\ Len(e.a) >= 256 /\ Len(e.a) % 256 = 0, "BlockMultiple")
         h5j == HitIf(h5i, con /\ e.ty = "nd64", "NdStrided")
-        h6 == HitIf(h5j, e.hasExpect, "Expect")
+        h5k == HitIf(h5j, con /\ e.ty = "na64", "Nalgebra")
+        (* top or bottom tie group at +-T::MAX / +-infinity, holding both a positive and a
+           negative or at least two items *)
+        h5l == HitIf(h5k, con /\ e.name = "auc" /\ e.fam = "extreme", "AucExtreme")
+        h5m == HitIf(h5l, class = "LengthMismatch" /\ e.ty \in {"nd64", "na64"}, "LengthMismatchBackEnd")
+        h5n == HitIf(h5m, class = "LengthMismatch" /\ (Len(e.a) = 1 \/ Len(e.b) = 1), "LengthMismatchOneVsN")
+        h6 == HitIf(h5n, e.hasExpect, "Expect")
         (* the design model's rational differs from the definition's: cannot happen unless
            the replay file is stale; counted as drift *)
         h7 == HitIf(h6, e.hasExpect /\ con /\ ~RatEq(<<e.xnum, e.xden>>, r), "Drift")
